@@ -311,6 +311,7 @@ GCM_ELAB = Unit("C09.elaborate_generatorbased_contextmanager", GC_ + "elaborate_
 ucg_result = Function("unwrap_context_generator_result", Val, Val, Val)
 eo_frame = Function("extract_outermost_result", Val, Val)
 eo_fails = Function("extract_outermost_no_frames", Val, BoolSort())
+eo_frame_overridden = Function("extract_outermost_result_under_overridden_options", Val, Val)
 
 
 def gcm_unwrap_setup(ex, p):
@@ -329,7 +330,9 @@ def gcm_unwrap_setup(ex, p):
         t, f = ex_.fork(p_, Not(eo_fails(args[0].t)))
         res = []
         if t is not None:
-            fr = eo_frame(args[0].t)
+            # the Frame handed to the hook is the one the CURRENT options produce (what the non-exiting path finds in
+            # inner_stack.frames[0]); a call that overrides options yields some other view of it
+            fr = eo_frame(args[0].t) if (len(args) == 1 and not kw) else eo_frame_overridden(args[0].t)
             t.pc += [is_kind(fr, "Frame"), Val.a(fr) >= 0]
             res.append(("ok", t, SV(fr, ty="Frame")))
         if f is not None:
